@@ -160,16 +160,15 @@ theorem NP_uniqueColumnsLoop (P : Plane) (rect : Rect) : ∀ xs, NP (P.uniqueCol
     · exact NP_error _
     · rename_i s h; exact absurd h (this s)
 
-theorem NP_inputValuesPresent (P : Plane) (r : Rect) (h : Nat) : NP (inputValuesPresent P r h) := by
-  unfold inputValuesPresent
+theorem NP_equalRegionsInColumns (P : Plane) (r : Rect) : NP (P.equalRegionsInColumns r) :=
+  NP_equalColumnsLoop P r _
+
+theorem NP_valuesRows (P : Plane) (r : Rect) (h : Nat) : NP (valuesRows P r h) := by
+  unfold valuesRows
   split
   · exact NP_ok _
-  · have : NP (P.equalRegionsInColumns r) := NP_equalColumnsLoop P r _
-    split
-    · exact NP_ok _
-    · exact NP_error _
-    · rename_i s h; exact absurd h (this s)
-  · have : NP (P.uniqueRegionsInColumns (r.incTop 1)) := NP_uniqueColumnsLoop P _ _
+  · exact NP_ok _
+  · have := NP_equalRegionsInColumns P ⟨r.left, r.top, r.right, r.top + 2⟩
     split
     · split
       · exact NP_error _
@@ -178,46 +177,91 @@ theorem NP_inputValuesPresent (P : Plane) (r : Rect) (h : Nat) : NP (inputValues
     · rename_i s h; exact absurd h (this s)
   · exact NP_error _
 
-theorem NP_inputValuesRow (P : Plane) (r : Rect) (b : Bool) : NP (inputValuesRow P r b) := by
-  unfold inputValuesRow
+theorem NP_valuesPresentIn (P : Plane) (r : Rect) (vr : Option (Nat × Nat)) :
+    NP (valuesPresentIn P r vr) := by
+  unfold valuesPresentIn
   split
-  · exact NP_rowTexts P _ _ _
+  · rename_i above last
+    have := NP_equalRegionsInColumns P ⟨r.left, above, r.right, last + 1⟩
+    split
+    · exact NP_ok _
+    · exact NP_error _
+    · rename_i s h; exact absurd h (this s)
   · exact NP_ok _
 
-theorem NP_outputHeaderSingle (P : Plane) (r : Rect) (h : Nat) (b : Bool) :
-    NP (outputHeaderSingle P r h b) := by
+theorem NP_inputValuesPresent (P : Plane) (r : Rect) (h : Nat) : NP (inputValuesPresent P r h) := by
+  unfold inputValuesPresent
+  have := NP_valuesRows P r h
+  split
+  · exact NP_valuesPresentIn P r _
+  · exact NP_error _
+  · rename_i s h; exact absurd h (this s)
+
+theorem NP_allowedValuesText (P : Plane) (above row col : Nat) :
+    NP (P.allowedValuesText above row col) := by
+  unfold Plane.allowedValuesText
+  have h1 := NP_regionNumber P row col
+  have h2 := NP_regionNumber P above col
+  split
+  · split
+    · split
+      · exact NP_ok _
+      · exact NP_regionText P _ _
+    · exact NP_error _
+    · rename_i s h; exact absurd h (h2 s)
+  · exact NP_error _
+  · rename_i s h; exact absurd h (h1 s)
+
+theorem NP_valuesTexts (P : Plane) (above row l r : Nat) : NP (P.valuesTexts above row l r) :=
+  NP_mapM _ (fun _ _ => NP_allowedValuesText P _ _ _)
+
+theorem NP_inputValuesRow (P : Plane) (r : Rect) (b : Bool) (vr : Option (Nat × Nat)) :
+    NP (inputValuesRow P r b vr) := by
+  unfold inputValuesRow
+  split
+  · exact NP_valuesTexts P _ _ _ _
+  · exact NP_ok _
+
+theorem NP_outputHeaderSingle (P : Plane) (r : Rect) (h : Nat) :
+    NP (outputHeaderSingle P r h) := by
   unfold outputHeaderSingle
   split
   · exact NP_bind (NP_regionText P _ _) (fun _ _ => NP_ok _)
-  · split
-    · have := NP_equalRegions P r
-      split
-      · exact NP_error _
-      · exact NP_bind (NP_regionText P _ _) (fun _ _ => NP_bind (NP_regionText P _ _) (fun _ _ => NP_ok _))
-      · exact NP_error _
-      · rename_i s h; exact absurd h (this s)
+  · refine NP_bind (NP_regionText P _ _) (fun _ _ => ?_)
+    have := NP_equalRegions P r
+    split
+    · exact NP_ok _
+    · exact NP_bind (NP_regionText P _ _) (fun _ _ => NP_ok _)
     · exact NP_error _
+    · rename_i s h; exact absurd h (this s)
   · exact NP_error _
 
-theorem NP_outputHeaderMulti (P : Plane) (r : Rect) (h : Nat) (b : Bool) :
-    NP (outputHeaderMulti P r h b) := by
+theorem NP_outputHeaderMulti (P : Plane) (r : Rect) (h : Nat) :
+    NP (outputHeaderMulti P r h) := by
   unfold outputHeaderMulti
+  have := NP_equalRegions P ⟨r.left, r.top, r.right, r.top + 1⟩
   split
   · exact NP_bind (NP_rowTexts P _ _ _) (fun _ _ => NP_ok _)
   · split
-    · exact NP_bind (NP_rowTexts P _ _ _) (fun _ _ => NP_bind (NP_rowTexts P _ _ _) (fun _ _ => NP_ok _))
     · exact NP_bind (NP_regionText P _ _) (fun _ _ => NP_bind (NP_rowTexts P _ _ _) (fun _ _ => NP_ok _))
-  · exact NP_bind (NP_regionText P _ _) (fun _ _ =>
-      NP_bind (NP_rowTexts P _ _ _) (fun _ _ => NP_bind (NP_rowTexts P _ _ _) (fun _ _ => NP_ok _)))
+    · exact NP_bind (NP_rowTexts P _ _ _) (fun _ _ => NP_bind (NP_valuesTexts P _ _ _ _) (fun _ _ => NP_ok _))
+    · exact NP_error _
+    · rename_i s h; exact absurd h (this s)
+  · split
+    · exact NP_bind (NP_regionText P _ _) (fun _ _ =>
+        NP_bind (NP_rowTexts P _ _ _) (fun _ _ => NP_bind (NP_valuesTexts P _ _ _ _) (fun _ _ => NP_ok _)))
+    · exact NP_error _
+    · exact NP_error _
+    · rename_i s h; exact absurd h (this s)
   · exact NP_error _
 
-theorem NP_outputHeader (P : Plane) (r : Rect) (w h : Nat) (b : Bool) :
-    NP (outputHeader P r w h b) := by
+theorem NP_outputHeader (P : Plane) (r : Rect) (w h : Nat) :
+    NP (outputHeader P r w h) := by
   unfold outputHeader
   split
   · exact NP_error _
-  · exact NP_outputHeaderSingle P r h b
-  · exact NP_outputHeaderMulti P r h b
+  · exact NP_outputHeaderSingle P r h
+  · exact NP_outputHeaderMulti P r h
 
 /-! ## `recognize_horizontal_table` -/
 
@@ -265,9 +309,10 @@ theorem NP_recognizeHorizontal (P : Plane) : NP (recognizeHorizontal P) := by
   refine NP_bind np1 (fun r1 _ => ?_)
   refine NP_bind (NP_width _) (fun icc _ => ?_)
   refine NP_bind (NP_height _) (fun h _ => ?_)
-  refine NP_bind (NP_inputValuesPresent P _ _) (fun ivp _ => ?_)
+  refine NP_bind (NP_valuesRows P _ _) (fun vr _ => ?_)
+  refine NP_bind (NP_valuesPresentIn P _ _) (fun ivp _ => ?_)
   refine NP_bind (NP_rowTexts P _ _ _) (fun exprs _ => ?_)
-  refine NP_bind (NP_inputValuesRow P _ _) (fun ivals _ => ?_)
+  refine NP_bind (NP_inputValuesRow P _ _ _) (fun ivals _ => ?_)
   refine NP_bind np2 (fun r2 _ => ?_)
   refine NP_bind (NP_rectTexts P _) (fun ients _ => ?_)
   refine NP_bind np3 (fun ro _ => ?_)
@@ -278,7 +323,7 @@ theorem NP_recognizeHorizontal (P : Plane) : NP (recognizeHorizontal P) := by
     · exact NP_ok _
     · exact NP_height _
   refine NP_bind hoh (fun oh _ => ?_)
-  refine NP_bind (NP_outputHeader P _ _ _ _) (fun out _ => ?_)
+  refine NP_bind (NP_outputHeader P _ _ _) (fun out _ => ?_)
   refine NP_bind np4 (fun r4 _ => ?_)
   refine NP_bind (NP_rectTexts P _) (fun oents _ => ?_)
   refine NP_bind np5 (fun ra _ => ?_)
@@ -295,6 +340,7 @@ theorem recognizeHorizontal_anns {P : Plane} {h : Horz} (hh : recognizeHorizonta
   obtain ⟨r1, _, hh⟩ := bind_ok_inv hh
   obtain ⟨icc, _, hh⟩ := bind_ok_inv hh
   obtain ⟨hgt, _, hh⟩ := bind_ok_inv hh
+  obtain ⟨vr, _, hh⟩ := bind_ok_inv hh
   obtain ⟨ivp, _, hh⟩ := bind_ok_inv hh
   obtain ⟨exprs, _, hh⟩ := bind_ok_inv hh
   obtain ⟨ivals, _, hh⟩ := bind_ok_inv hh
